@@ -122,7 +122,8 @@ def dictWalk (rd : Frag → R) : Nat → Nat → Bits → Cell → Option (List 
     | some (lv, s1) =>
       let l := labelLen lv
       let key := pfx ++ labelBitsOf lv
-      if n - l = 0 then
+      if c.exotic then some []         -- `deserialize_hashmap_node`: `if cs.type_ != CellTypes.ordinary: return None` (after the label)
+      else if n - l = 0 then
         match rd s1 with
         | some (v, _) => some [(key, v)]
         | none => none
